@@ -262,8 +262,10 @@ func runC19(w *World, st *Stats, r *Rng, k, dk Kind, R, W, iters, procs int) {
 	fillAll(w, base, 0)
 	b := w.views[base]
 	// a conversion destination and caller slices for the readers are private to each reader
-	roView := w.Slice(base, 0, roFrames)
-	ro := w.views[roView]
+	w.Slice(base, 0, roFrames)
+	// the readers share a header that nothing has touched since it was created (no method of it has
+	// been called yet): lazily initialised state in a read path would be written concurrently
+	ro := w.views[base].Slice(0, roFrames)
 	// sequential reference results of every read-only entry point on the read-only region
 	refSamples := make([]uint64, ro.Len())
 	for i := range refSamples {
